@@ -63,6 +63,29 @@ impl Out {
         writeln!(self.w, "{}", rec).unwrap();
         id
     }
+    /// A generated proof obligation: `vernac` is a complete, self-contained piece of Coq (Section /
+    /// Goal / Proof / Qed) that must compile; it is re-proved by coqc on every run.
+    pub fn vernac_case(&mut self, kind: &str, vernac: String, input: J, nontrivial: bool) -> u64 {
+        let id = self.next_id;
+        self.next_id += 1;
+        let key = format!("{}|{}", kind, vernac);
+        let fresh = self.keys.insert(key.clone());
+        if fresh && nontrivial {
+            self.nontrivial_keys.insert(key);
+        }
+        self.stat(&format!("kind:{}", kind));
+        if self.samples.len() < self.max_samples && (id % 37 == 0 || self.samples.len() < 3) {
+            let mut l = vernac.clone();
+            if l.len() > 600 {
+                l.truncate(600);
+                l.push_str("...");
+            }
+            self.samples.push(json!({"kind": kind, "input": input, "generated_obligation": l}));
+        }
+        let rec = json!({"t":"case","id":id,"kind":kind,"vernac":vernac,"lhs":"","rhs":"","input":input});
+        writeln!(self.w, "{}", rec).unwrap();
+        id
+    }
     /// A property-level oracle verdict on one concrete input, computed natively against /repo.
     /// `class` identifies the failing site / input class (matched against KNOWN_FINDINGS.json).
     pub fn violation(&mut self, class: &str, input: J, detail: String) {
